@@ -77,15 +77,18 @@ class Env:
 class FakeConn:
     def __init__(self, env, k):
         self.env, self.k = env, k
+        self.closed = False
 
     def recv(self):
+        if self.closed:          # what multiprocessing.connection.Connection does
+            raise OSError('handle is closed')
         ch = self.env.chan[self.k]
         if ch:
             return ch.pop(0)
         raise EOFError
 
     def close(self):
-        pass
+        self.closed = True
 
 
 class FakeWorker:
@@ -139,6 +142,9 @@ def run_script(n, inputs, script, retry=True, extra=0, return_results=True, refu
 
     def wait(conns, timeout=None):
         conns = list(conns)
+        for c in conns:
+            if c.closed:         # mp.connection.wait calls fileno() on every object
+                raise OSError('handle is closed')
         present = {c.k: c for c in conns}
         while True:
             if env.pos >= len(env.script):
